@@ -131,6 +131,8 @@ impl<T: Transformation> SelectSupport<T> {
             result.samples.push(start.1 as u64);
             // Long superblock.
             if limit.1 - start.1 >= log4 {
+                #[cfg(feature = "verif-probes")]
+                crate::verif::hit(crate::verif::probe::SEL_BUILD_LONG);
                 result.samples.push((2 * result.long.len()) as u64);
                 let values = limit.0 - start.0;
                 for _ in 0..values {
@@ -140,6 +142,8 @@ impl<T: Transformation> SelectSupport<T> {
             }
             // Short superblock.
             else {
+                #[cfg(feature = "verif-probes")]
+                crate::verif::hit(crate::verif::probe::SEL_BUILD_SHORT);
                 result.samples.push((2 * result.short.len() + 1) as u64);
                 let blocks = ((limit.0 - start.0) + Self::BLOCK_SIZE - 1) / Self::BLOCK_SIZE;
                 for _ in 0..blocks {
@@ -224,18 +228,27 @@ impl<T: Transformation> SelectSupport<T> {
         let (superblock, offset) = (rank / Self::SUPERBLOCK_SIZE, rank & Self::SUPERBLOCK_MASK);
         let mut result: usize = self.samples.get(2 * superblock) as usize;
         if offset == 0 {
+            #[cfg(feature = "verif-probes")]
+            crate::verif::hit(crate::verif::probe::SEL_Q_SUPERBLOCK_START);
             return result;
         }
 
         let ptr = self.samples.get(2 * superblock + 1) as usize;
         let (ptr, is_short) = (ptr / 2, ptr & 1);
         if is_short == 0 {
+            #[cfg(feature = "verif-probes")]
+            {
+                crate::verif::hit(crate::verif::probe::SEL_Q_LONG);
+                if ptr > 0 { crate::verif::hit(crate::verif::probe::SEL_Q_LONG_PTR_NONZERO); }
+            }
             result += self.long.get(ptr + offset) as usize;
         } else {
             let (block, mut relative_rank) = (offset / Self::BLOCK_SIZE, offset & Self::BLOCK_MASK);
             result += self.short.get(ptr + block) as usize;
             // Search within the block until we find the set bit of relative rank `relative_rank`
             // from the start of the current word.
+            #[cfg(feature = "verif-probes")]
+            crate::verif::hit(if relative_rank > 0 { crate::verif::probe::SEL_Q_SHORT_SCAN } else { crate::verif::probe::SEL_Q_SHORT_BLOCK_START });
             if relative_rank > 0 {
                 let (mut word, word_offset) = bits::split_offset(result);
                 let mut value: u64 = T::word_unchecked(parent, word) & !bits::low_set_unchecked(word_offset);
@@ -247,6 +260,8 @@ impl<T: Transformation> SelectSupport<T> {
                     }
                     relative_rank -= ones;
                     word += 1;
+                    #[cfg(feature = "verif-probes")]
+                    crate::verif::hit(crate::verif::probe::SEL_Q_SHORT_NEXT_WORD);
                     value = T::word_unchecked(parent, word);
                 }
             }
